@@ -71,6 +71,10 @@ fn classify(replies: &[Value]) -> Class {
 fn subst(v: &Value, id: &str) -> Value {
     match v {
         Value::String(s) if s == ID => json!(id),
+        // respellings of the real id: strings the service never handed out
+        // (an id without hex letters is its own upper case: fall back to another respelling)
+        Value::String(s) if s == "@IDUPPER@" => json!(if id.to_uppercase() != id { id.to_uppercase() } else { format!("00{}", id) }),
+        Value::String(s) if s.contains(ID) => json!(s.replace(ID, id)),
         Value::Array(a) => Value::Array(a.iter().map(|x| subst(x, id)).collect()),
         Value::Object(o) => Value::Object(o.iter().map(|(k, x)| (k.clone(), subst(x, id))).collect()),
         _ => v.clone(),
@@ -279,7 +283,16 @@ fn events_for(templates: &[Value], client: usize) -> Vec<Event> {
             continue;
         }
         // client id deviations
-        for (w, idv) in [("empty client id", json!("")), ("unknown client id", json!("0123456789abcdef")), ("client id of wrong type", json!(17))] {
+        for (w, idv) in [
+            ("empty client id", json!("")),
+            ("unknown client id", json!("0123456789abcdef")),
+            ("client id of wrong type", json!(17)),
+            ("client id with a leading zero", json!(format!("0{}", ID))),
+            ("client id with a plus sign", json!(format!("+{}", ID))),
+            ("client id with a trailing space", json!(format!("{} ", ID))),
+            ("client id in upper case", json!("@IDUPPER@")),
+            ("client id with a 0x prefix", json!(format!("0x{}", ID))),
+        ] {
             let mut r = t.clone();
             r["parameters"]["client_id"] = idv;
             ev.push(Event { client, step: k, what: w.into(), req: r, deviates: true });
